@@ -510,3 +510,55 @@ def run_decode_history(pool, rng, n_steps, script=None):
                 problems.append({"step": len(steps), "what": "editing a decoded message raises",
                                  "exception": type(e).__name__ + ": " + str(e)[:120]})
     return steps, problems, live
+
+
+# ---- public attributes (what a user of a decoded message reads) ---------------------------------
+
+def _norm_public(v):
+    import enum
+    if isinstance(v, enum.Enum):
+        return v.value
+    try:
+        return int(v)
+    except Exception:
+        return repr(v)[:80]
+
+
+def public_view(obj, cls_name):
+    """{attribute path: value} for every attribute the PINNED format lists for the class, read with
+    plain getattr (not through ctypes descriptors)"""
+    out = {}
+    ent = pinned_layouts().get(cls_name)
+    for name, _, _, _ in (ent[1] if ent else []):
+        cur = obj
+        try:
+            for part in name.split("."):
+                cur = getattr(cur, part)
+            out[name] = _norm_public(cur)
+        except Exception as e:
+            out[name] = "<unreadable: %s>" % type(e).__name__
+    return out
+
+
+def public_roundtrip_problem(direction, mj):
+    """For a ctypes message: build it through the real constructor, serialise, decode, and compare the
+    PUBLIC attributes of the decoded message with those of the original and with the values it was
+    built from. None if fine."""
+    if mj["k"] != "fixed":
+        return None
+    ent = pinned_layouts().get(mj["c"])
+    if not ent or len(ent[1]) != len(mj["v"]):
+        return None
+    try:
+        obj = make_msg(mj)
+        raw = bytes(obj)
+        f = M.deserialize_host_msg if direction == "host" else M.deserialize_return_msg
+        back = f(raw)
+    except Exception as e:
+        return {"exception": type(e).__name__ + ": " + str(e)[:120]}
+    want = {name: v for (name, _, _, _), v in zip(ent[1], mj["v"])}
+    a, b = public_view(obj, mj["c"]), public_view(back, mj["c"])
+    if type(back).__name__ != mj["c"] or a != b or b != want:
+        return {"built_from": want, "original_attributes": a, "decoded_attributes": b,
+                "decoded_class": type(back).__name__, "bytes": list(raw)[:40]}
+    return None
